@@ -30,7 +30,17 @@ Table multi_arg_set_boolean_functions;
 /* ghost record of the call through the table entry */
 bool g_called; set_boolean g_arg; RCPBasic g_result;
 inline RCPBasic call_entry(const TableIt &it, set_boolean &s) { g_called = true; g_arg.n = s.n; for (unsigned i = 0; i < CAP; i++) g_arg.d[i] = s.d[i]; return g_result; }
+struct vec_boolean { RCPBasic d[CAP]; unsigned n; vec_boolean() { n = 0; } void push_back(RCPBasic v) { __CPROVER_assert(n < CAP, "capacity of the vec_boolean stub"); if (n < CAP) { d[n] = v; n = n + 1; } }
+  unsigned size() const { return n; } RCPBasic operator[](unsigned i) const { __CPROVER_assert(i < n, "vector index in bounds"); return d[i < CAP ? i : 0]; } };
+Table multi_arg_vec_boolean_functions;
+vec_boolean g_varg;
+inline RCPBasic call_entry(const TableIt &it, vec_boolean &s) { g_called = true; g_varg.n = s.n; for (unsigned i = 0; i < CAP; i++) g_varg.d[i] = s.d[i]; return g_result; }
 bool g_fell_through;
+RCPBasic vec_branch(int name, vec_basic &params)
+{
+#include "vecbool.inc"
+  g_fell_through = true; return 0;
+}
 RCPBasic branch(int name, vec_basic &params)
 {
 #include "setbool.inc"
@@ -57,4 +67,26 @@ extern "C" void h_set_connective(void)
       OBL("C17.functionify.set_connective.post.only_operands_are_passed", in); }
   }
   REACHABLE("h_set_connective");
+}
+
+/* Xor/Xnor branch: the connective is applied to the SEQUENCE of all operands, in order (vec_boolean) */
+extern "C" void h_vec_connective(void)
+{
+  vec_basic p; p.n = nondet_uint(); __CPROVER_assume(p.n >= 1 && p.n <= CAP);
+  for (unsigned i = 0; i < CAP; i++) { p.d[i] = nondet_uint(); __CPROVER_assume(p.d[i] < 8); }
+  for (unsigned i = 0; i < 8; i++) g_is_bool[i] = nondet_boolean();
+  multi_arg_vec_boolean_functions.found_row = nondet_int(); __CPROVER_assume(multi_arg_vec_boolean_functions.found_row >= -1 && multi_arg_vec_boolean_functions.found_row < 2);
+  g_result = nondet_uint(); g_called = false; g_fell_through = false; verif_thrown = 0;
+  bool all_bool = true; for (unsigned i = 0; i < CAP; i++) if (i < p.n && !g_is_bool[p.d[i]]) all_bool = false;
+  bool found = multi_arg_vec_boolean_functions.found_row != -1;
+  verif_may_throw = found && !all_bool;
+  RCPBasic r = vec_branch(0, p);
+  if (!found) OBL("C17.functionify.vec_connective.post.unknown_name_falls_through", g_fell_through && !g_called);
+  else {
+    OBL("C17.functionify.vec_connective.post.non_boolean_operand_is_a_ParseError", all_bool);
+    OBL("C17.functionify.vec_connective.post.result_is_the_connective_applied_to_the_operands", g_called && !g_fell_through && r == g_result);
+    OBL("C17.functionify.vec_connective.post.all_operands_are_passed", g_varg.n == p.n);
+    for (unsigned i = 0; i < CAP; i++) if (i < p.n && i < g_varg.n) OBL("C17.functionify.vec_connective.post.operands_are_passed_in_order", g_varg.d[i] == p.d[i]);
+  }
+  REACHABLE("h_vec_connective");
 }
